@@ -1,5 +1,5 @@
 SPECIFICATION Spec
-CONSTANT Depth = 6
+CONSTANT Depth = 5
 CONSTANT MaxW = 2
 CONSTANT MaxS = 2
 CONSTANT MaxAtt = 3
